@@ -239,23 +239,88 @@ def r14_single_start(ctx: Context) -> None:
             rule.fail(key, sites[0].where, f"{caller.short} starts the file {len(sites)} times with the same rule list {lists}")
         else:
             rule.ok(key, f"disjoint starts for {lists}")
-    # the manager: a given list is honoured even when it is empty
-    skips = [n for n in walk_local(starting.node) if isinstance(n, ast.Continue)]
-    honoured = False
-    for node in skips:
-        facts = guards_of(starting.node, node)
-        membership = [t for t, pol in facts if pol and isinstance(t, ast.Compare) and isinstance(t.ops[0], ast.NotIn) and list_param in norm(t.comparators[0])]
-        truthiness = [t for t, pol in facts if pol and isinstance(t, ast.Name) and t.id == list_param]
-        if membership and not truthiness:
-            honoured = True
-        elif membership and truthiness:
-            rule.fail(f"{starting.short}: empty list", where(starting, node), "the manager skips a rule only when the list of rules to start is non-empty: with an empty list (no collecting rules at the highest fix level) every enabled rule is started - a second time in that pass")
-            honoured = None  # type: ignore[assignment]
-            break
-    if honoured:
-        rule.ok(f"{starting.short}: empty list", "a list that is given is a constraint, also when empty")
-    elif honoured is False:
-        raise AnalysisError("PluginManager.starting_new_file: the test that applies the rule list was not found")
+    # the manager: a given list is honoured even when it is empty.  The conditions under which the callback runs
+    # are evaluated for 'no list given' (every rule must be started) and for 'an empty list given' (none may be).
+    callback_calls = [
+        c for c in walk_local(starting.node)
+        if isinstance(c, ast.Call) and isinstance(c.func, ast.Attribute) and c.func.attr == "starting_new_file" and isinstance(c.func.value, ast.Attribute) and c.func.value.attr == "plugin_instance"
+    ]
+    if len(callback_calls) != 1:
+        raise AnalysisError("PluginManager.starting_new_file: the call of the plugins' starting_new_file was not found")
+
+    def truth(expr: ast.AST, given: str, depth: int = 0) -> Optional[bool]:
+        """value of a condition when the rule list is None ('none') or [] ('empty'); None = does not depend on it / unknown"""
+        if depth > 4:
+            return None
+        if isinstance(expr, ast.Name):
+            if expr.id == list_param:
+                return False  # None and [] are both falsy
+            values = [n.value for n in walk_local(starting.node) if isinstance(n, ast.Assign) and any(isinstance(t, ast.Name) and t.id == expr.id for t in n.targets)]
+            return truth(values[0], given, depth + 1) if len(values) == 1 else None
+        if isinstance(expr, ast.UnaryOp) and isinstance(expr.op, ast.Not):
+            inner = truth(expr.operand, given, depth + 1)
+            return None if inner is None else not inner
+        if isinstance(expr, ast.BoolOp):
+            parts = [truth(v, given, depth + 1) for v in expr.values]
+            if isinstance(expr.op, ast.And):
+                if any(p is False for p in parts):
+                    return False
+                return True if all(p is True for p in parts) else None
+            if any(p is True for p in parts):
+                return True
+            return False if all(p is False for p in parts) else None
+        if isinstance(expr, ast.Compare) and len(expr.ops) == 1:
+            left, op, right = expr.left, expr.ops[0], expr.comparators[0]
+            if isinstance(left, ast.Name) and left.id == list_param and isinstance(right, ast.Constant) and right.value is None:
+                if isinstance(op, ast.Is):
+                    return given == "none"
+                if isinstance(op, ast.IsNot):
+                    return given != "none"
+            if isinstance(right, ast.Name) and right.id == list_param and isinstance(op, (ast.In, ast.NotIn)):
+                if given == "empty":
+                    return isinstance(op, ast.NotIn)
+                return None  # membership in None is never evaluated on a correct path
+        return None
+
+    start_loops = [n for n in walk_local(starting.node) if isinstance(n, ast.For) and any(sub is callback_calls[0] for sub in ast.walk(n))]
+    if len(start_loops) != 1:
+        raise AnalysisError("PluginManager.starting_new_file: the loop over the plugins was not found")
+    start_body = ast.FunctionDef(name="<body>", args=ast.arguments(posonlyargs=[], args=[], kwonlyargs=[], kw_defaults=[], defaults=[]), body=start_loops[0].body, decorator_list=[], lineno=start_loops[0].lineno, col_offset=0)
+    start_cfg = CFG(start_body, raising=lambda n: False)
+
+    def runs(given: str) -> Optional[bool]:
+        """True: every feasible path through the loop body starts the rule; False: none does; None: some do"""
+        reached: Set[bool] = set()
+        is_continue = lambda nid: isinstance(start_cfg.nodes[nid].ast_node, ast.Continue)  # noqa: E731
+        for path in enumerate_paths(start_cfg, loop_bound=1, stop=is_continue):
+            if path[-1][0] != start_cfg.exit and not is_continue(path[-1][0]):
+                continue
+            feasible = True
+            calls = False
+            for nid, label in path:
+                node = start_cfg.nodes[nid]
+                if node.kind == "cond" and node.ast_node is not None:
+                    value = truth(node.ast_node, given)
+                    if value is not None and value != (label == "true"):
+                        feasible = False
+                        break
+                elif node.ast_node is not None and any(sub is callback_calls[0] for sub in ast.walk(node.ast_node)):
+                    calls = True
+            if feasible:
+                reached.add(calls)
+        if reached == {True}:
+            return True
+        if reached == {False}:
+            return False
+        return None
+
+    key = f"{starting.short}: empty list"
+    if runs("none") is not True:
+        rule.fail(key, where(starting, callback_calls[0]), "without a list of rules the manager does not start every enabled rule")
+    elif runs("empty") is not False:
+        rule.fail(key, where(starting, callback_calls[0]), "the manager skips a rule only when the list of rules to start is non-empty: with an empty list (no collecting rules at the highest fix level) every enabled rule is started - a second time in that pass")
+    else:
+        rule.ok(key, "a list that is given is a constraint, also when empty")
 
 
 def _pass_filter_only(prog: Program, func: FuncInfo, expr: ast.AST, plugin_var: str, depth: int, trusted: Optional[Set[str]] = None) -> bool:
@@ -332,12 +397,14 @@ def r14c(ctx: Context, rule_id: str = "R14c") -> None:
                     prop_of_field[node.value.attr] = name
     # (iii) list <- property in __apply_configuration
     list_of_prop: Dict[str, str] = {}
-    for call in walk_local(apply_one.node):
-        if isinstance(call, ast.Call) and isinstance(call.func, ast.Attribute) and call.func.attr == "append" and isinstance(call.func.value, ast.Attribute):
-            # the innermost property test that holds when the append runs (if-block or early-return form)
-            tests = [t for t, pol in guards_of(apply_one.node, call) if pol and isinstance(t, ast.Attribute)]
-            if tests:
-                list_of_prop[tests[-1].attr] = call.func.value.attr
+    fillers = [apply_one] + [t for site in prog.sites_in(apply_one) for t in site.targets if t.cls == apply_one.cls]
+    for filler in fillers:  # the function that configures one plugin, or a private helper it hands the plugin to
+        for call in walk_local(filler.node):
+            if isinstance(call, ast.Call) and isinstance(call.func, ast.Attribute) and call.func.attr == "append" and isinstance(call.func.value, ast.Attribute):
+                # the innermost property test that holds when the append runs (if-block or early-return form)
+                tests = [t for t, pol in guards_of(filler.node, call) if pol and isinstance(t, ast.Attribute)]
+                if tests:
+                    list_of_prop[tests[-1].attr] = call.func.value.attr
     # lists reset in apply_configuration
     reset: Set[str] = set()
     for node in walk_local(apply_all.node):
@@ -389,13 +456,16 @@ def r14c(ctx: Context, rule_id: str = "R14c") -> None:
         counts: Set[int] = set()
         wrong: Set[str] = set()
         skipped_paths = 0
-        for path in enumerate_paths(cfg, loop_bound=1):
+        loop_var = loop.target.id if isinstance(loop.target, ast.Name) else ""
+        bad_filters: List[ast.AST] = []
+        leaves_iteration = lambda nid: isinstance(cfg.nodes[nid].ast_node, ast.Continue)  # noqa: E731
+        for path in enumerate_paths(cfg, loop_bound=1, stop=leaves_iteration):
             count = 0
-            skipped = False
+            conditions: List[ast.AST] = []
             for nid, label in path:
                 node = cfg.nodes[nid]
-                if node.kind == "stmt" and isinstance(node.ast_node, ast.Continue):
-                    skipped = True
+                if node.kind == "cond" and node.ast_node is not None:
+                    conditions.append(node.ast_node)
                 if node.kind == "stmt" and node.ast_node is not None:
                     for call in [c for c in ast.walk(node.ast_node) if isinstance(c, ast.Call)]:
                         if isinstance(call.func, ast.Attribute) and isinstance(call.func.value, ast.Attribute) and call.func.value.attr == "plugin_instance":
@@ -403,29 +473,28 @@ def r14c(ctx: Context, rule_id: str = "R14c") -> None:
                                 count += 1
                             elif call.func.attr in EVENT_METHODS:
                                 wrong.add(call.func.attr)
-            if skipped:
-                skipped_paths += 1
-                if count:
-                    counts.add(-1)
+            if path[-1][0] == cfg.raise_exit:
                 continue
-            if path[-1][0] == cfg.exit:
-                counts.add(count)
+            if count == 0:
+                # the plugin is passed over on this path: every decision that led here must be a pass filter
+                # (the context map / rule list of the pass and the plugin's id), whatever form the skip takes
+                skipped_paths += 1
+                for test in conditions:
+                    if not _pass_filter_only(prog, dispatcher, test, loop_var, 0) and all(test is not known for known in bad_filters):
+                        bad_filters.append(test)
+                continue
+            counts.add(count)
         if wrong:
             rule.fail(key + ": dispatcher", where(dispatcher, loop), f"PluginManager.{callback} invokes {sorted(wrong)} on the plugins")
         elif counts != {1}:
             rule.fail(key + ": dispatcher", where(dispatcher, loop), f"PluginManager.{callback} invokes the callback {sorted(counts)} times on some path through the dispatch loop (must be exactly once per dispatched plugin)")
         else:
             rule.ok(key + ": dispatcher", f"iterates {dispatch_list}, one call per plugin; {skipped_paths} filtered path(s)")
-        # the skip filters are only the context_map / constraint_id_list membership tests
-        for node in [n for stmt in loop.body for n in ast.walk(stmt) if isinstance(n, ast.If)]:
-            if any(isinstance(s, ast.Continue) for s in node.body):
-                text = norm(node.test)
-                fkey = f"{key}: filter '{text}'"
-                loop_var = loop.target.id if isinstance(loop.target, ast.Name) else ""
-                if _pass_filter_only(prog, dispatcher, node.test, loop_var, 0):
-                    rule.ok(fkey, "documented pass filter: decided by the pass's context map / rule list and the plugin's id only")
-                else:
-                    rule.fail(fkey, where(dispatcher, node), f"PluginManager.{callback} skips plugins on '{text}', which is not a pass filter: an enabled rule misses events")
+        for test in bad_filters:
+            text = norm(test)
+            rule.fail(f"{key}: filter '{text}'", where(dispatcher, test), f"PluginManager.{callback} skips plugins on '{text}', which is not a pass filter: an enabled rule misses events")
+        if skipped_paths and not bad_filters:
+            rule.ok(f"{key}: filters", "plugins are passed over only by the pass's context map / rule list and the plugin's id")
 
 
 def r14d(ctx: Context) -> None:
@@ -456,79 +525,153 @@ def r14d(ctx: Context) -> None:
 
 
 def r14e(ctx: Context) -> None:
+    """The line loop, whatever its form (``while line is not None`` with an explicit fetch, or ``for line in
+    iter(provider.get_next_line, None)``): it is executed symbolically for 0, 1, 2 and 3 iterations with integer
+    locals evaluated concretely.  In iteration k the dispatcher must be called exactly once, with line number k
+    and with the line just fetched; every iteration fetches exactly once; afterwards ``completed_file`` gets
+    (number of lines + 1)."""
+    from sa.util import param_by_annotation
+
     prog = ctx.prog
     rule = ctx.rule("R14e", "line loop: deliver once, count once, fetch once per iteration; first line is 1", 4)
     func = prog.method(FSH, "__process_lines_in_file")
     dispatcher = prog.method(PM, "next_line")
     completer = prog.method(PM, "completed_file")
-    loops = [n for n in walk_local(func.node) if isinstance(n, ast.While)]
-    if len(loops) != 1:
-        raise AnalysisError("__process_lines_in_file: expected one while loop")
-    loop = loops[0]
-    call = None
-    for site in prog.sites_in(func):
-        if dispatcher in site.targets:
-            call = site
+    call = next((site for site in prog.sites_in(func) if dispatcher in site.targets), None)
     if call is None:
         rule.fail(func_key(func), where(func), "the line loop no longer hands lines to PluginManager.next_line")
         return
+    loops = [n for n in walk_local(func.node) if isinstance(n, (ast.While, ast.For)) and any(sub is call.node for sub in ast.walk(n))]
+    if len(loops) != 1 or loops[0] not in func.node.body:  # type: ignore[attr-defined]
+        raise AnalysisError("__process_lines_in_file: the loop that delivers the lines was not found at the top level of the function")
+    loop = loops[0]
     bound = Program.bind_args(dispatcher, call.node, skip_self=True)
-    from sa.util import param_by_annotation
-
-    counter = bound.get(param_by_annotation(dispatcher, "int", exact=True) or "line_number")
-    line = bound.get(param_by_annotation(dispatcher, "str", exact=True) or "line")
-    if not (isinstance(counter, ast.Name) and isinstance(line, ast.Name)):
-        rule.fail(func_key(func, call.node), call.where, "line number / line text are not passed as plain variables")
+    counter_arg = bound.get(param_by_annotation(dispatcher, "int", exact=True) or "line_number")
+    line_arg = bound.get(param_by_annotation(dispatcher, "str", exact=True) or "line")
+    if counter_arg is None or not isinstance(line_arg, ast.Name):
+        rule.fail(func_key(func, call.node), call.where, "line number / line text are not passed to the dispatcher")
         return
-    # loop condition: <line> is not None
-    if norm(loop.test) != f"{line.id} is not None":
-        rule.fail(func_key(func, loop.test), where(func, loop), f"the loop stops on '{norm(loop.test)}' rather than when the provider is exhausted ('{line.id} is not None'): an empty line ends delivery early or the loop overruns")
+
+    def is_fetch(expr: ast.AST) -> bool:
+        return isinstance(expr, ast.Call) and isinstance(expr.func, ast.Attribute) and expr.func.attr == "get_next_line" and not expr.args
+
+    def is_line_iterator(expr: ast.AST, env_iters: Set[str]) -> bool:
+        if isinstance(expr, ast.Name):
+            return expr.id in env_iters
+        return (isinstance(expr, ast.Call) and dotted(expr.func) == "iter" and len(expr.args) == 2 and isinstance(expr.args[0], ast.Attribute)
+                and expr.args[0].attr == "get_next_line" and isinstance(expr.args[1], ast.Constant) and expr.args[1].value is None)
+
+    def value(expr: ast.AST, env: Dict[str, int]) -> Optional[int]:
+        if isinstance(expr, ast.Constant) and isinstance(expr.value, int) and not isinstance(expr.value, bool):
+            return expr.value
+        if isinstance(expr, ast.Name):
+            return env.get(expr.id)
+        if isinstance(expr, ast.BinOp) and isinstance(expr.op, (ast.Add, ast.Sub)):
+            left, right = value(expr.left, env), value(expr.right, env)
+            if left is None or right is None:
+                return None
+            return left + right if isinstance(expr.op, ast.Add) else left - right
+        return None
+
+    def execute(stmt: ast.stmt, env: Dict[str, int], events: List[Tuple[str, object]], iterators: Set[str]) -> None:
+        if isinstance(stmt, ast.Assign):
+            for target in stmt.targets:
+                for tgt, val, _ in Program._unpack(target, stmt.value):
+                    if not isinstance(tgt, ast.Name) or val is None:
+                        continue
+                    if is_fetch(val):
+                        events.append(("fetch", tgt.id))
+                    elif is_line_iterator(val, iterators):
+                        iterators.add(tgt.id)
+                    else:
+                        number = value(val, env)
+                        if number is not None:
+                            env[tgt.id] = number
+                        else:
+                            env.pop(tgt.id, None)
+        elif isinstance(stmt, ast.AugAssign) and isinstance(stmt.target, ast.Name) and isinstance(stmt.op, (ast.Add, ast.Sub)):
+            before, delta = env.get(stmt.target.id), value(stmt.value, env)
+            if before is not None and delta is not None:
+                env[stmt.target.id] = before + delta if isinstance(stmt.op, ast.Add) else before - delta
+            else:
+                env.pop(stmt.target.id, None)
+        if any(sub is call.node for sub in ast.walk(stmt)):
+            events.append(("deliver", (value(counter_arg, env), line_arg.id)))
+
+    env: Dict[str, int] = {}
+    events: List[Tuple[str, object]] = []
+    iterators: Set[str] = set()
+    position = func.node.body.index(loop)  # type: ignore[attr-defined]
+    for stmt in func.node.body[:position]:  # type: ignore[attr-defined]
+        execute(stmt, env, events, iterators)
+    line_variable = line_arg.id
+    problems: List[str] = []
+    if isinstance(loop, ast.While):
+        if norm(loop.test) != f"{line_variable} is not None":
+            problems.append(f"the loop stops on '{norm(loop.test)}' rather than when the provider is exhausted ('{line_variable} is not None'): an empty line ends delivery early or the loop overruns")
+        if events != [("fetch", line_variable)]:
+            problems.append(f"before the loop the first line is not fetched exactly once into '{line_variable}' ({events})")
     else:
-        rule.ok(func_key(func, loop.test), "runs until the provider returns None")
-    # initial values
-    init_ok = False
-    for node in walk_local(func.node):
-        if isinstance(node, ast.Assign) and node.lineno < loop.lineno:
-            for target in node.targets:
-                for tgt, value, _ in Program._unpack(target, node.value):
-                    if isinstance(tgt, ast.Name) and tgt.id == counter.id:
-                        init_ok = isinstance(value, ast.Constant) and value.value == 1
-    if init_ok:
-        rule.ok(func_key(func) + ": first line number", "1")
-    else:
-        rule.fail(func_key(func) + ": first line number", where(func), "the line counter does not start at 1")
+        target_ok = isinstance(loop.target, ast.Name) and loop.target.id == line_variable
+        if not (target_ok and is_line_iterator(loop.iter, iterators)):
+            problems.append(f"the loop iterates '{norm(loop.iter)}' into '{norm(loop.target)}', which is not 'every line the provider returns until None' delivered as it is")
+        if events:
+            problems.append(f"a line is fetched outside the iterator ({events})")
     body_fn = ast.FunctionDef(name="<body>", args=ast.arguments(posonlyargs=[], args=[], kwonlyargs=[], kw_defaults=[], defaults=[]), body=loop.body, decorator_list=[], lineno=loop.lineno, col_offset=0)
     cfg = CFG(body_fn, raising=lambda n: False)
-    for path in enumerate_paths(cfg, loop_bound=1):
-        if path[-1][0] != cfg.exit:
-            continue
-        sequence: List[str] = []
-        for nid, _ in path:
-            node = cfg.nodes[nid]
-            if node.kind != "stmt" or node.ast_node is None:
-                continue
-            stmt = node.ast_node
-            if isinstance(stmt, (ast.Continue, ast.Break)):
-                sequence.append("jump")
-            if any(c is call.node for c in ast.walk(stmt)):
-                sequence.append("deliver")
-            if isinstance(stmt, ast.AugAssign) and isinstance(stmt.target, ast.Name) and stmt.target.id == counter.id:
-                sequence.append("count" if isinstance(stmt.op, ast.Add) and isinstance(stmt.value, ast.Constant) and stmt.value.value == 1 else "count?")
-            elif isinstance(stmt, ast.Assign) and any(isinstance(t, ast.Name) and t.id == counter.id for t in stmt.targets):
-                sequence.append("count" if norm(stmt.value) in (f"{counter.id} + 1", f"1 + {counter.id}") else "count?")
-            if isinstance(stmt, ast.Assign) and any(isinstance(t, ast.Name) and t.id == line.id for t in stmt.targets):
-                sequence.append("fetch" if isinstance(stmt.value, ast.Call) and isinstance(stmt.value.func, ast.Attribute) and stmt.value.func.attr == "get_next_line" else "fetch?")
-        key = f"{func.short}: loop body path {sequence}"
-        if sequence == ["deliver", "count", "fetch"] or sequence == ["deliver", "fetch", "count"]:
-            rule.ok(key, "deliver, count, fetch")
-        else:
-            rule.fail(key, where(func, loop), f"one iteration of the line loop does {sequence}; it must deliver the line once, add one to the counter once and fetch the next line once")
-    # completed_file gets the counter after the loop
-    done = [s for s in prog.sites_in(func) if completer in s.targets]
-    if len(done) == 1 and done[0].node.lineno > loop.end_lineno and any(isinstance(a, ast.Name) and a.id == counter.id for a in done[0].node.args):
-        rule.ok(func_key(func, done[0].node), "completed_file after the last line with the counter")
+    paths = [path for path in enumerate_paths(cfg, loop_bound=1) if path[-1][0] == cfg.exit]
+    completion = [s for s in prog.sites_in(func) if completer in s.targets]
+    completion_arg = None
+    if len(completion) == 1 and completion[0].node.lineno > (loop.end_lineno or loop.lineno):
+        completion_arg = Program.bind_args(completer, completion[0].node, skip_self=True).get(param_by_annotation(completer, "int", exact=True) or "line_number")
+    iteration_env = dict(env)
+    for iteration in range(0, 4):
+        if completion_arg is not None:
+            after = value(completion_arg, iteration_env)
+            if after != iteration + 1:
+                problems.append(f"after {iteration} line(s) completed_file is given line number {after}, expected {iteration + 1}")
+        if iteration == 3:
+            break
+        outcomes = []
+        for path in paths:
+            trial_env = dict(iteration_env)
+            trial_events: List[Tuple[str, object]] = []
+            jumped = False
+            for nid, _ in path:
+                node = cfg.nodes[nid]
+                if node.kind == "stmt" and node.ast_node is not None:
+                    if isinstance(node.ast_node, (ast.Continue, ast.Break)):
+                        jumped = True
+                    execute(node.ast_node, trial_env, trial_events, iterators)  # type: ignore[arg-type]
+            outcomes.append((trial_env, trial_events, jumped))
+        for trial_env, trial_events, jumped in outcomes:
+            delivers = [e for e in trial_events if e[0] == "deliver"]
+            fetches = [e for e in trial_events if e[0] == "fetch"]
+            wanted_fetches = 1 if isinstance(loop, ast.While) else 0
+            if jumped:
+                problems.append("a path through the loop body leaves it early (continue / break): a line is skipped")
+            if len(delivers) != 1 or delivers[0][1] != (iteration + 1, line_variable):
+                problems.append(f"iteration {iteration + 1} delivers {[d[1] for d in delivers]}; it must deliver the current line exactly once with line number {iteration + 1}")
+            if len(fetches) != wanted_fetches or any(f[1] != line_variable for f in fetches):
+                problems.append(f"iteration {iteration + 1} fetches {len(fetches)} line(s); it must fetch the next line exactly once" if isinstance(loop, ast.While) else f"iteration {iteration + 1} fetches a line although the iterator already does")
+            if isinstance(loop, ast.While) and delivers and fetches and trial_events.index(fetches[0]) < trial_events.index(delivers[0]):
+                problems.append("the next line is fetched before the current one is delivered: the first line is lost")
+        if outcomes:
+            iteration_env = outcomes[0][0]
+            if any(o[0] != iteration_env for o in outcomes):
+                problems.append("the paths through the loop body disagree on the line counter")
+    key = f"{func.short}: line loop"
+    if completion_arg is None:
+        problems.append("completed_file is not called exactly once after the line loop with the line counter")
+    unique = sorted(set(problems))
+    if unique:
+        rule.fail(key, where(func, loop), f"one iteration of the line loop does not deliver once / count once / fetch once: {unique[0]}" + (f" (+{len(unique) - 1} more)" if len(unique) > 1 else ""))
     else:
-        rule.fail(func_key(func) + ": completion", where(func), "completed_file is not called exactly once after the line loop with the line counter")
+        rule.ok(key, f"{'while' if isinstance(loop, ast.While) else 'for'} loop: line k is delivered once with number k, one fetch per iteration, completion with n + 1")
+        rule.ok(key + " [first line]", "the first delivered line has number 1")
+        rule.ok(key + " [completion]", "completed_file after the last line with the counter")
+        rule.ok(key + " [exhaustion]", "runs until the provider returns None")
+
 
 
 def r14f(ctx: Context) -> None:
